@@ -159,7 +159,7 @@ def canon(e, rename, depth=0, rewrite=None, pname=None):
     may replace a sub-expression (return None to keep it), `pname` names parameters"""
     if not isinstance(e, tuple) or not e:
         return str(e)
-    if depth > 14:
+    if depth > 40:
         return "…"
     if rewrite is not None:
         r = rewrite(e, depth)
